@@ -6,6 +6,7 @@ triples of (label, point) vertices together with the residual polygon.  `clip_eq
 the model's `clip` (which returns the flat label list, as the Rust code does) is its projection.
 Every invariant is then an instance of one induction principle, `clipRun_inv`.
 -/
+import Mathlib.Data.List.Perm.Basic
 import ScadVerif.Lemmas.RealInst
 import ScadVerif.Model.Tri
 import ScadVerif.Spec.Mesh
@@ -335,4 +336,207 @@ theorem area2_short (l : List (Pt2 ℝ)) (h : l.length < 3) : area2 l = 0 := by
   | [a, b], _ => simp [area2, area2.go]
 
 end Area
+/-! ### directed edges of the emitted triangles -/
+abbrev Edge := Nat × Nat
+
+/-- consecutive pairs of a list (open chain) -/
+def chainE : List Nat → List Edge
+  | a :: b :: rest => (a, b) :: chainE (b :: rest)
+  | _ => []
+/-- consecutive pairs of a cyclic list: the chain plus the closing pair -/
+def ringE (l : List Nat) : List Edge := chainE l ++ [(l.getD (l.length - 1) 0, l.getD 0 0)]
+
+theorem chainE_erase_interior : ∀ (l : List Nat) (e : Nat), 0 < e → e + 1 < l.length →
+    ((l.getD (e - 1) 0, l.getD (e + 1) 0) :: chainE l).Perm
+      ((l.getD (e - 1) 0, l.getD e 0) :: (l.getD e 0, l.getD (e + 1) 0) :: chainE (l.eraseIdx e))
+  | [], e, _, h => by simp at h
+  | [_], e, _, h => by simp at h
+  | x :: y :: ys, e, he, hlen => by
+    cases e with
+    | zero => omega
+    | succ e' =>
+      cases e' with
+      | zero =>
+        cases ys with
+        | nil => simp at hlen
+        | cons c rest =>
+          simp only [chainE, List.eraseIdx_cons_succ, List.eraseIdx_cons_zero]
+          simp only [Nat.zero_add, Nat.sub_self, List.getD_cons_zero, List.getD_cons_succ]
+          -- (x,c) :: (x,y) :: (y,c) :: rest'  ~  (x,y) :: (y,c) :: (x,c) :: rest'
+          exact (List.Perm.swap _ _ _).trans ((List.Perm.swap _ _ _).cons _)
+      | succ e'' =>
+        have ih := chainE_erase_interior (y :: ys) (e'' + 1) (by omega) (by simp at hlen ⊢; omega)
+        simp only [List.eraseIdx_cons_succ] at ih ⊢
+        cases hys : ys.eraseIdx e'' with
+        | nil =>
+          have : (ys.eraseIdx e'').length = ys.length - 1 := by
+            rw [List.length_eraseIdx]; simp at hlen; simp; omega
+          rw [hys] at this; simp at hlen this; omega
+        | cons z zs =>
+          rw [hys] at ih
+          simp only [chainE] at ih ⊢
+          simp only [Nat.add_sub_cancel, List.getD_cons_succ] at ih ⊢
+          -- A :: P :: C ~ P :: A :: C ~ P :: A' :: B' :: R ~ A' :: P :: B' :: R ~ A' :: B' :: P :: R
+          exact (List.Perm.swap _ _ _).trans ((List.Perm.cons _ ih).trans
+            ((List.Perm.swap _ _ _).trans ((List.Perm.swap _ _ _).cons _)))
+
+
+theorem chainE_erase_last : ∀ (l : List Nat), 2 ≤ l.length →
+    (chainE l).Perm ((l.getD (l.length - 2) 0, l.getD (l.length - 1) 0) :: chainE (l.eraseIdx (l.length - 1)))
+  | [], h => by simp at h
+  | [_], h => by simp at h
+  | [x, y], _ => by simp [chainE]
+  | x :: y :: z :: r, _ => by
+    have ih := chainE_erase_last (y :: z :: r) (by simp)
+    simp only [List.length_cons] at ih ⊢
+    have e1 : r.length + 1 + 1 + 1 - 1 = (r.length + 1 + 1 - 1) + 1 := by omega
+    have e2 : r.length + 1 + 1 + 1 - 2 = (r.length + 1 + 1 - 2) + 1 := by omega
+    rw [e1, e2, List.eraseIdx_cons_succ, List.getD_cons_succ, List.getD_cons_succ]
+    have e3 : r.length + 1 + 1 - 1 = r.length + 1 := by omega
+    rw [e3] at ih ⊢
+    rw [List.eraseIdx_cons_succ] at ih ⊢
+    simp only [chainE] at ih ⊢
+    exact (List.Perm.cons _ ih).trans (List.Perm.swap _ _ _)
+
+theorem ringE_length (l : List Nat) : (ringE l).length = (chainE l).length + 1 := by simp [ringE]
+
+/-- **cutting vertex `e` out of a cyclic list**: the ring loses the two edges at `e` and gains the
+chord between its neighbours -/
+theorem ringE_eraseIdx (l : List Nat) (e : Nat) (hn : 3 ≤ l.length) (he : e < l.length) :
+    ((l.getD (prevIdx l.length e) 0, l.getD (nextIdx l.length e) 0) :: ringE l).Perm
+      ((l.getD (prevIdx l.length e) 0, l.getD e 0) :: (l.getD e 0, l.getD (nextIdx l.length e) 0) ::
+        ringE (l.eraseIdx e)) := by
+  have hlen : (l.eraseIdx e).length = l.length - 1 := by rw [List.length_eraseIdx]; simp [he]
+  unfold ringE
+  rw [hlen]
+  by_cases h0 : e = 0
+  · subst h0
+    match l, hn with
+    | p0 :: p1 :: rest, _ =>
+      have hn1 : rest.length + 1 + 1 - 1 = rest.length + 1 := by omega
+      have hn2 : rest.length + 1 - 1 = rest.length := by omega
+      have hne : ¬ (0 = rest.length + 1) := by omega
+      simp only [prevIdx, nextIdx, if_true, List.length_cons, List.eraseIdx_cons_zero, chainE, hn1, hn2, hne,
+        if_false, List.getD_cons_succ, List.getD_cons_zero, Nat.zero_add, List.cons_append]
+      -- (L,p1) :: (p0,p1) :: (C ++ [(L,p0)]) ~ (L,p0) :: (p0,p1) :: (C ++ [(L,p1)])
+      rw [List.perm_iff_count]
+      intro x
+      simp only [List.count_cons, List.count_append, List.count_nil]
+      omega
+  · by_cases hl : e = l.length - 1
+    · have h2 := chainE_erase_last l (by omega)
+      rw [← hl] at h2
+      have hp : prevIdx l.length e = l.length - 2 := by unfold prevIdx; simp [h0]; omega
+      have hnx : nextIdx l.length e = 0 := by unfold nextIdx; simp [hl]
+      rw [hp, hnx, TriLemmas.getD_eraseIdx, TriLemmas.getD_eraseIdx]
+      have c1 : l.length - 1 - 1 < e := by omega
+      have c2 : 0 < e := by omega
+      simp only [c1, c2, if_true]
+      have e1 : l.length - 1 - 1 = l.length - 2 := by omega
+      rw [e1]
+      rw [hl] at h2 ⊢
+      rw [List.perm_iff_count] at h2 ⊢
+      intro x
+      have := h2 x
+      simp only [List.count_cons, List.count_append, List.count_nil] at this ⊢
+      omega
+    · have h2 := chainE_erase_interior l e (by omega) (by omega)
+      have hp : prevIdx l.length e = e - 1 := by unfold prevIdx; simp [h0]
+      have hnx : nextIdx l.length e = e + 1 := by unfold nextIdx; simp [hl]
+      rw [hp, hnx, TriLemmas.getD_eraseIdx, TriLemmas.getD_eraseIdx]
+      have c1 : ¬ (l.length - 1 - 1 < e) := by omega
+      have c2 : 0 < e := by omega
+      simp only [c1, c2, if_true, if_false]
+      have e1 : l.length - 1 - 1 + 1 = l.length - 1 := by omega
+      rw [e1]
+      rw [List.perm_iff_count] at h2 ⊢
+      intro x
+      have := h2 x
+      simp only [List.count_cons, List.count_append, List.count_nil] at this ⊢
+      omega
+
+
+/-! ### the edge certificate of a run -/
+section Cert
+set_option linter.unusedSectionVars false
+variable {α : Type} [Add α] [Sub α] [Mul α] [Div α] [Neg α] [OfNat α 0] [OfNat α 1] [Cmp α]
+
+/-- the labels of a polygon, in order -/
+def lab (poly : Poly α) : List Nat := poly.map (·.1)
+/-- the three directed edges of an emitted triangle, by label -/
+def triEdges (t : Tri3 α) : List Edge := [(t.1.1, t.2.1.1), (t.2.1.1, t.2.2.1), (t.2.2.1, t.1.1)]
+def runEdges (ts : List (Tri3 α)) : List Edge := ts.flatMap triEdges
+
+theorem lab_getD (poly : Poly α) (i : Nat) : (lab poly).getD i 0 = (vAt poly i).1 := by
+  simp only [lab, vAt, List.getD_eq_getElem?_getD, List.getElem?_map]
+  cases poly[i]? <;> rfl
+theorem lab_eraseIdx (poly : Poly α) (e : Nat) : lab (poly.eraseIdx e) = (lab poly).eraseIdx e := by
+  simp [lab, List.eraseIdx_map]
+theorem lab_length (poly : Poly α) : (lab poly).length = poly.length := by simp [lab]
+
+theorem count_map_swap (l : List Edge) (e : Edge) : (l.map Prod.swap).count e = l.count e.swap := by
+  induction l with
+  | nil => simp
+  | cons a t ih =>
+    simp only [List.map_cons, List.count_cons, ih]
+    congr 1
+    by_cases h : a = e.swap
+    · subst h; simp
+    · have : ¬ (a.swap = e) := fun h' => h (by rw [← h']; simp)
+      simp [h, this]
+
+/-- **edge invariant of the loop**: the edges of the emitted triangles together with the boundary of
+what is left are the input boundary plus diagonals, each diagonal in both directions -/
+theorem clipRun_edges (fuel : Nat) (poly : Poly α) (ccw : Bool) :
+    ∃ D : List Edge, (runEdges (clipRun fuel poly ccw []).1 ++ ringE (lab (clipRun fuel poly ccw []).2)).Perm
+      (ringE (lab poly) ++ D ++ D.map Prod.swap) := by
+  refine clipRun_inv (fun a p => ∃ D : List Edge, (runEdges a ++ ringE (lab p)).Perm
+      (ringE (lab poly) ++ D ++ D.map Prod.swap)) ccw ?_ fuel poly [] ⟨[], by simp [runEdges]⟩
+  intro a p e hlen hear ⟨D, hD⟩
+  have he := (findEar_some p ccw e hear).1
+  have hr := ringE_eraseIdx (lab p) e (by rw [lab_length]; exact hlen) (by rw [lab_length]; exact he)
+  rw [lab_length] at hr
+  refine ⟨((lab p).getD (prevIdx p.length e) 0, (lab p).getD (nextIdx p.length e) 0) :: D, ?_⟩
+  rw [List.perm_iff_count] at hD hr ⊢
+  intro x
+  have h1 := hD x
+  have h2 := hr x
+  simp only [runEdges, List.flatMap_append, List.flatMap_cons, List.flatMap_nil, List.append_nil, triEdges,
+    earAt, ← lab_getD, lab_eraseIdx, List.count_append, List.count_cons, List.count_nil, List.map_cons,
+    Prod.swap_prod_mk] at h1 h2 ⊢
+  omega
+
+theorem ringE_pair (x y : Nat) : ringE [x, y] = [(x, y), (y, x)] := by simp [ringE, chainE]
+
+/-- a multiset of directed edges in which every edge has its reverse equally often -/
+def RevClosed (es : List Edge) : Prop := (es.map Prod.swap).Perm es
+
+/-- **complete runs have the ring as their boundary**: when the loop leaves two vertices, the directed
+edges of the emitted triangles, together with the input boundary reversed, pair up — every edge of
+the triangles is either a boundary edge (used once, in list direction) or is matched by its reverse.
+This is the edge half of the tiling certificate, for every input, needing only that the run is
+complete. -/
+theorem complete_run_boundary (fuel : Nat) (poly : Poly α) (ccw : Bool)
+    (hc : (clipRun fuel poly ccw []).2.length = 2) :
+    RevClosed (runEdges (clipRun fuel poly ccw []).1 ++ (ringE (lab poly)).map Prod.swap) := by
+  obtain ⟨D, hD⟩ := clipRun_edges fuel poly ccw
+  obtain ⟨u, v, huv⟩ := List.length_eq_two.mp hc
+  have hring : ringE (lab (clipRun fuel poly ccw []).2) = [(u.1, v.1), (v.1, u.1)] := by
+    rw [huv]; simp [lab, ringE_pair]
+  rw [hring] at hD
+  unfold RevClosed
+  rw [List.perm_iff_count] at hD ⊢
+  intro x
+  have h1 := hD x
+  have h2 := hD x.swap
+  have e1 : ((u.1, v.1) == x.swap) = ((v.1, u.1) == x) := by
+    cases x; simp [Prod.swap, Prod.ext_iff, eq_comm, and_comm]
+  have e2 : ((v.1, u.1) == x.swap) = ((u.1, v.1) == x) := by
+    cases x; simp [Prod.swap, Prod.ext_iff, eq_comm, and_comm]
+  simp only [List.count_append, List.count_cons, List.count_nil, List.map_append, count_map_swap,
+    Prod.swap_swap, e1, e2] at h1 h2 ⊢
+  omega
+
+end Cert
+
 end ScadVerif.TriLemmas
